@@ -559,12 +559,17 @@ theorem recvSig_pending (K : Crypto) (st : AuthState) (msg : Bytes) :
   unfold recvSig akeTry
   stable [processSig_pending, akeSetTheirCurrent_pending, akeHasFinished_pending]
 
+theorem akeStamp_pending (st : AuthState) (single : Option Bytes) (err : Option Err) :
+    Stable PendingFrame (akeStamp st single err) := by
+  unfold akeStamp modAke
+  stable [getAke_pending]
+
 /-- the tail of `processAKE` after a step that did not complete an exchange -/
 theorem akeTail_pending (K : Crypto) (st : AuthState) (x : AuthState × Option Bytes × Option Err)
     (hx : st = .none ∨ x.1 ≠ .none ∨ x.2.2 ≠ none) : Stable PendingFrame (akeTail K st x) := by
   unfold akeTail modAke
   rw [retransmitAfterCompletedExchange_skip K st x.1 x.2.2 hx]
-  stable []
+  stable [akeStamp_pending]
 
 /-- the error `akeTail` returns is the one of the step -/
 theorem akeTail_err (K : Crypto) (st : AuthState) (x : AuthState × Option Bytes × Option Err) (s s' : MState)
@@ -575,13 +580,15 @@ theorem akeTail_err (K : Crypto) (st : AuthState) (x : AuthState × Option Bytes
   obtain ⟨_, s1, -, h⟩ := bindM_ok_inv h
   rw [runM_bind] at h
   obtain ⟨extra, s2, -, h⟩ := bindM_ok_inv h
-  simp only [runM_bind, runM_now, bindM_ok, modAke, runM_modc, runM_pure, Res.ok.injEq, Prod.mk.injEq,
-    Except.ok.injEq] at h
+  rw [runM_bind] at h
+  obtain ⟨_, s3, -, h⟩ := bindM_ok_inv h
+  simp only [runM_pure, Res.ok.injEq, Prod.mk.injEq, Except.ok.injEq] at h
   exact h.1.2.symm
 
-theorem akeTailDH_pending (x : AuthState × Option Bytes × Option Err) : Stable PendingFrame (akeTailDH x) := by
+theorem akeTailDH_pending (st : AuthState) (x : AuthState × Option Bytes × Option Err) :
+    Stable PendingFrame (akeTailDH st x) := by
   unfold akeTailDH modAke
-  stable []
+  stable [akeStamp_pending]
 
 /-- **C06/C18 (repaired code), at the level of `processAKE`.**  An AKE message that is rejected (an error is
     returned next to the messages to send) or that is not one of the two finishing combinations (a
@@ -672,8 +679,8 @@ theorem processAKE_pending_kept (K : Crypto) (t : Nat) (msg : Bytes) (s : MState
           rw [if_neg h3, if_neg h4]
           stable [recvDHCommit_pending, recvDHKey_pending]
         have hrest : Stable PendingFrame (akeRest K t msg st) := by
-          unfold akeRest modAke
-          stable [hd]
+          unfold akeRest
+          stable [hd, akeStamp_pending]
         exact hrest s0 r s' h
   cases ha : s.conv.ake with
   | none =>
